@@ -153,3 +153,39 @@ Theorem C20_cm_value_at_zero : forall (ex : Q -> Q), (forall y, (y == 0)%Q -> (e
   forall f, List.length (cm_a f) = List.length (cm_b f) -> (cm_eval ex f 0 == cm_at_zero f)%Q.
 Proof. exact cm_eval_zero. Qed.
 Print Assumptions C20_cm_value_at_zero.
+
+(* --- the form factors for Q > 0 (real-valued; these rest on the axioms of Coq's real numbers).
+   The interval evaluators that the correspondence run executes enclose, for EVERY coefficient
+   list and EVERY Q, the documented formulas  A exp(-a s2) + B exp(-b s2) + C exp(-c s2) + D,
+   s2 times that, and c + sum a_i exp(-b_i s2), with s2 = (Q/(4 pi))^2 *)
+From Coq Require Import Reals.
+From Interval Require Import Interval Xreal.
+From PT Require Import C20FF C20FFSound.
+
+Theorem C20_formfactor_0_enclosed : forall v q,
+  contains (I.convert (ff0I v q)) (Xreal (ff_coreR v (Rsqr (QR q / (IZR 4 * Rtrigo1.PI))))).
+Proof. exact ff0I_sound. Qed.
+Print Assumptions C20_formfactor_0_enclosed.
+
+Theorem C20_formfactor_n_enclosed : forall v q,
+  contains (I.convert (ffnI v q))
+           (Xreal (Rsqr (QR q / (IZR 4 * Rtrigo1.PI)) * ff_coreR v (Rsqr (QR q / (IZR 4 * Rtrigo1.PI))))%R).
+Proof. exact ffnI_sound. Qed.
+Print Assumptions C20_formfactor_n_enclosed.
+
+Theorem C20_cromer_mann_enclosed : forall f q, contains (I.convert (cmI f q)) (Xreal (cmR f q)).
+Proof. exact cmI_sound. Qed.
+Print Assumptions C20_cromer_mann_enclosed.
+
+Theorem C20_formfactor_reals_at_zero : forall v,
+  ff0R v 0 = (QR (coef v 0) + QR (coef v 2) + QR (coef v 4) + QR (coef v 6))%R /\ ffnR v 0 = 0%R.
+Proof. intro v. split; [exact (ff0R_at_zero v)|exact (ffnR_at_zero v)]. Qed.
+Print Assumptions C20_formfactor_reals_at_zero.
+
+(* the comparison rule of the correspondence run: an accepted double differs from the enclosed
+   real value by an element of 2^-30 * [-1,1] * scale *)
+Theorem C20_near_sound : forall m e x scale r, C20FF.near (Py.PF m e) x scale = true ->
+  contains (I.convert x) (Xreal r) ->
+  contains (I.convert (I.mul prec epsI scale)) (Xreal (r - dblR m e)).
+Proof. exact near_sound. Qed.
+Print Assumptions C20_near_sound.
